@@ -25,11 +25,11 @@ def oracle_eq(ck, m, four, h, x=None, co=None, tol=0.0):
     replay = {'oracle': 'nonsep', 'm': m, 'four': four, 'h': [arr_json(f) for f in h], 'x': arr_json(x), 'co': arr_json(co), 'tol': tol}
     if x is not None:
         desc = 'afb2d_nonsep vs afb2d mode=%s L=(%d,%d) shape=%s' % (gen.MODE_NAME[m], len(hc0), len(hr0), tuple(x.shape))
-        a = rt.run_impl(rt.Case('Z', 'afb2d_nonsep', [m, ck.rng.randint(0, 2)], [hc0, hc1, hr0, hr1, x]), IMPL)
+        a = rt.run_impl(rt.Case('Z', 'afb2d_nonsep', [m, ck.rng.randint(0, 5)], [hc0, hc1, hr0, hr1, x]), IMPL)
         b = rt.run_impl(rt.Case('Z', 'afb2d', [m], [hc0[::-1].copy(), hc1[::-1].copy(), hr0[::-1].copy(), hr1[::-1].copy(), x]), IMPL)
     else:
         desc = 'sfb2d_nonsep vs sfb2d mode=%s L=(%d,%d) coeffs=%s' % (gen.MODE_NAME[m], len(hc0), len(hr0), tuple(co.shape))
-        a = rt.run_impl(rt.Case('Z', 'sfb2d_nonsep', [m, ck.rng.randint(0, 2)], [hc0, hc1, hr0, hr1, co]), IMPL)
+        a = rt.run_impl(rt.Case('Z', 'sfb2d_nonsep', [m, ck.rng.randint(0, 5)], [hc0, hc1, hr0, hr1, co]), IMPL)
         b = rt.run_impl(rt.Case('Z', 'sfb2d', [m], [hc0, hc1, hr0, hr1, co[:, :, 0], co[:, :, 1], co[:, :, 2], co[:, :, 3]]), IMPL)
     ra, rb = isinstance(a, tuple), isinstance(b, tuple)
     if ra or rb:
